@@ -5,6 +5,7 @@ import os
 import re
 import shutil
 import stat
+import signal
 import subprocess
 import tempfile
 
@@ -107,7 +108,7 @@ def parse_summary(out):
     return dict(zip(k, map(int, m.groups())))
 
 
-def run_cli(args, epoch=None, env_extra=None, cwd=None, strace_out=None, inject=None, timeout=120, release=False, umask=None):
+def run_cli(args, epoch=None, env_extra=None, cwd=None, strace_out=None, inject=None, timeout=120, release=False, umask=None, fsize_limit=None):
     env = dict(ENV)
     env.pop("SOURCE_DATE_EPOCH", None)
     if epoch is not None:
@@ -120,13 +121,29 @@ def run_cli(args, epoch=None, env_extra=None, cwd=None, strace_out=None, inject=
         if inject:
             pre += ["-e", "inject=" + inject]
         cmd = pre + cmd
-    pre_fn = (lambda: os.umask(umask)) if umask is not None else None
+    def pre_fn():
+        if umask is not None:
+            os.umask(umask)
+        if fsize_limit is not None:
+            # a file may not grow beyond this many bytes: the write that crosses the limit is cut short, the next one fails with EFBIG
+            # (SIGXFSZ ignored, as under a full quota or file system the process just sees short and failing writes)
+            import resource
+            signal.signal(signal.SIGXFSZ, signal.SIG_IGN)
+            resource.setrlimit(resource.RLIMIT_FSIZE, (fsize_limit, fsize_limit))
+    if umask is None and fsize_limit is None:
+        pre_fn = None
+    # own session, so that a run that does not come back is killed together with its workers
+    p = subprocess.Popen(cmd, env=env, cwd=cwd, stdout=subprocess.PIPE, stderr=subprocess.STDOUT, preexec_fn=pre_fn, start_new_session=True)
     try:
-        p = subprocess.run(cmd, env=env, cwd=cwd, timeout=timeout, stdout=subprocess.PIPE, stderr=subprocess.STDOUT, preexec_fn=pre_fn)
-        out = p.stdout.decode("utf-8", "replace")
-        return p.returncode, out
-    except subprocess.TimeoutExpired as e:
-        return 124, (e.stdout or b"").decode("utf-8", "replace") + "\n[timeout]"
+        out, _ = p.communicate(timeout=timeout)
+        return p.returncode, out.decode("utf-8", "replace")
+    except subprocess.TimeoutExpired:
+        try:
+            os.killpg(p.pid, signal.SIGKILL)
+        except OSError:
+            pass
+        out, _ = p.communicate()
+        return 124, (out or b"").decode("utf-8", "replace") + "\n[timeout]"
 
 
 # ----------------------------------------------------------------------------- strace -> abstract operations
